@@ -356,7 +356,7 @@ class C05(Property):
                         continue
                     total += 1
                     yield {"wrap": wrap, "len": 12, "ps": name_products([protos[i] for i in combo])}
-            for _ in range(3000 if full else 400):
+            for _ in range(3000 if full else 300):
                 combo = sorted(rng.randrange(len(protos)) for _ in range(4))
                 total += 1
                 yield {"wrap": wrap, "len": 12, "ps": name_products([protos[i] for i in combo])}
@@ -365,7 +365,7 @@ class C05(Property):
                                "small_scope_complete_up_to": 3 if full else 2}
 
     def cases(self, rng: random.Random, tier: str, deep: bool) -> Iterator[Dict[str, Any]]:
-        n_random = 10000 if deep else 2200
+        n_random = 10000 if deep else 1900
         n_directed = 6000 if deep else 1200
 
         def with_perms(case: Dict[str, Any], small: bool = False) -> Dict[str, Any]:
